@@ -231,7 +231,11 @@ static void run_c05(long cases) {
 // seg: server-level confirmation for C01 / C04 (digest echo under forced read segmentation)
 struct DigestHandler : public Http::Handler {
     HTTP_PROTOTYPE(DigestHandler)
-    void onRequest(const Http::Request& req, Http::ResponseWriter response) override { response.send(Http::Code::Ok, mg::snap(req)); }
+    void onRequest(const Http::Request& req, Http::ResponseWriter response) override {
+        if (req.resource() == "/__throw") throw std::runtime_error("handler failed");
+        if (req.resource() == "/__throwhttp") throw Http::HttpError(Http::Code::Forbidden, "handler refuses");
+        response.send(Http::Code::Ok, mg::snap(req));
+    }
 };
 static void set_caps(const std::vector<size_t>& caps, bool repeat) { lv::Interpose& I = lv::ip(); std::lock_guard<std::mutex> g(I.m); I.defaultRecvCaps = caps; I.defaultRecvRepeat = repeat; }
 static void run_seg(long cases) {
@@ -287,6 +291,38 @@ static void run_seg(long cases) {
                         "request " + std::to_string(k) + " (" + ms[k].shape + ") on a keep-alive connection: status " + std::to_string(st) + " (fresh connection: " + std::to_string(refStatus[k]) + ")" + (d != ref[k] ? ", parsed message differs" : ""), wt); break; }
                 g_distinct.add("ka|" + ms[k].shape + "|" + std::to_string(k));
                 count("c04_server_level");
+            }
+        }
+        {   // keep-alive connection whose previous request FAILED (answered by the framework with 4xx/5xx, connection kept open):
+            // the successor must be parsed as on a fresh connection
+            static const char* PRED[][2] = {
+                {"bad-cookie-500", "GET /p HTTP/1.1\r\nHost: x\r\nCookie: novalue\r\n\r\n"},
+                {"handler-throws-500", "GET /__throw?a=1 HTTP/1.1\r\nHost: x\r\nX-Old: 1\r\nCookie: old=1\r\n\r\n"},
+                {"handler-throws-http-error", "GET /__throwhttp HTTP/1.1\r\nHost: x\r\nX-Old: 1\r\n\r\n"},
+                {"unknown-method", "BREW /p HTTP/1.1\r\nHost: x\r\n\r\n"},
+                {"bad-version", "GET /p HTTP/3.7\r\nHost: x\r\n\r\n"},
+                {"bad-cache-control-value", "GET /p HTTP/1.1\r\nHost: x\r\nCache-Control: max-age=\r\n\r\n"},
+                {"bad-content-length", "GET /p HTTP/1.1\r\nHost: x\r\nContent-Length: 12x\r\n\r\n"},
+                {"bad-accept-value", "GET /p HTTP/1.1\r\nHost: x\r\nAccept: text/;;q=\r\n\r\n"},
+            };
+            int pk = r.range(0, 7); int k = r.range(0, 2);
+            std::vector<size_t> caps; for (int j = 0; j < 5; j++) caps.push_back((size_t)r.range(1, 200));
+            set_caps(r.chance(1, 2) ? caps : std::vector<size_t>{}, true);
+            std::string wt = Json().num("i", idx).str("phase", "seg-c04-after-failure").str("predecessor", PRED[pk][0]).str("shape", ms[k].shape).str("hex", hex(ms[k].bytes.substr(0, 3000))).done();
+            set_case(idx, wt);
+            lv::Conn c; c.open_to(port);
+            std::string d0; int st0 = 0;
+            if (exchange(c, PRED[pk][1], d0, st0)) {
+                // a connection the server chose to close after the failure is out of scope (nothing follows on it)
+                struct pollfd pf{c.fd, POLLIN, 0}; bool closed = ::poll(&pf, 1, 30) > 0;
+                if (!closed) {
+                    std::string d; int st; exchange(c, ms[k].bytes, d, st);
+                    g_evals++;
+                    if (st != refStatus[k] || d != ref[k]) violation(std::string("c04:server:after-failed-request:") + PRED[pk][0] + ":" + (st != refStatus[k] ? "status-differs" : "message-differs"),
+                            "request (" + ms[k].shape + ") after a predecessor answered " + std::to_string(st0) + " (" + PRED[pk][0] + ") on the same connection: status " + std::to_string(st) + " (fresh connection: " + std::to_string(refStatus[k]) + ")" + (d != ref[k] ? ", parsed message differs" : ""), wt);
+                    g_distinct.add(std::string("kafail|") + PRED[pk][0] + "|" + std::to_string(st0));
+                    count("c04_server_level_after_failure");
+                } else count("c04_server_closed_after_failure");
             }
         }
         if (g_samples_left > 0 && (n % 17) == 3) { g_samples_left--; sample(Json().str("shapes", ms[0].shape + " " + ms[1].shape + " " + ms[2].shape).done()); }
